@@ -25,12 +25,16 @@ EXTENDS Integers, Sequences, FiniteSets, TLC
 CONSTANTS Signers, Heights, Rounds, Nids, Bodies, Auxes, Us, MaxOps,
           Ops      \* enabled calls, a subset of {"recv", "check"} (bounds the exhaustive runs)
 
+BadNid == 9      \* a value of Nids that stands for "bytes that are not a network id"
 Kinds == {"prevote", "precommit", "proposal"}
 NoMsg == [kind |-> "none"]
 Msgs == {m \in [kind : Kinds, signer : Signers, height : Heights, round : Rounds, nid : Nids,
                 body : Bodies, aux : Auxes, u : Us] :
              /\ m.kind = "proposal" => m.body # "nil"
-             /\ m.kind # "precommit" => m.u = 0}
+             /\ m.kind # "precommit" => m.u = 0
+             /\ m.nid = BadNid => (m.body = "nil" /\ m.kind # "proposal")}
+\* a nil vote carries its network id in place of the block id; BadNid stands for bytes there that are not a network id
+\* (old or malformed nil votes): the network of such a vote is unspecified, like 0
 \* what the signature covers
 Signed(m) == [m EXCEPT !.u = 0]
 Keys == [kind : Kinds, signer : Signers, height : Heights, round : Rounds]
@@ -41,7 +45,8 @@ VARIABLES log,     \* [Keys -> Msgs \cup {NoMsg}]
 vars == <<log, hist>>
 
 \* network ids are compatible when equal or when one of them is unspecified (matchNID)
-MatchNid(a, b) == a = 0 \/ b = 0 \/ a = b
+Eff(a) == IF a = BadNid THEN 0 ELSE a
+MatchNid(a, b) == Eff(a) = 0 \/ Eff(b) = 0 \/ Eff(a) = Eff(b)
 \* the conflict predicate exactly as property C06 states it
 Conflict(m1, m2) ==
   /\ m1.kind = m2.kind
@@ -68,9 +73,19 @@ Check(m1, m2) ==
   /\ UNCHANGED log
   /\ hist' = Append(hist, [op |-> "check", m |-> m1, m2 |-> m2, ev |-> Conflict(m1, m2)])
 
+\* DecodeDoubleSignData of bytes found in a report that are not a correctly signed message of the stated type:
+\* signature from which no key can be recovered, truncated encoding, a type name that does not exist ("error": they
+\* can never become evidence); the bytes of a vote presented as a proposal or vice versa must at least not crash
+Defects == {"badsig", "trunc", "unknowntype", "wrongtype"}
+Decode(m, d) ==
+  /\ UNCHANGED log
+  /\ hist' = Append(hist, [op |-> "decode", m |-> m, d |-> d, ev |-> FALSE,
+                           res |-> IF d = "wrongtype" THEN "nocrash" ELSE "error"])
+
 Can == Len(hist) < MaxOps
 Next == \/ Can /\ "recv" \in Ops /\ \E m \in Msgs : Receive(m)
         \/ Can /\ "check" \in Ops /\ \E m1, m2 \in Msgs : Check(m1, m2)
+        \/ Can /\ "decode" \in Ops /\ \E m \in Msgs, d \in Defects : Decode(m, d)
 Spec == Init /\ [][Next]_vars
 
 ----------------------------------------------------------------------------
@@ -86,7 +101,9 @@ Reports == Stepped /\ Last.ev
 SameSlot == [][Reports => KeyOf(Pair(Last)[1]) = KeyOf(Pair(Last)[2])]_vars
 \* ... on the same network or an unspecified one ...
 SameNetwork == [][Reports => LET p == Pair(Last) IN
-                               ~(p[1].nid # 0 /\ p[2].nid # 0 /\ p[1].nid # p[2].nid)]_vars
+                               ~(Eff(p[1].nid) # 0 /\ Eff(p[2].nid) # 0 /\ p[1].nid # p[2].nid)]_vars
+\* undecodable bytes never bear evidence
+GarbageIsNoEvidence == [][(Stepped /\ Last.op = "decode") => ~Last.ev]_vars
 \* ... whose signed contents differ.
 Differ == [][Reports => Signed(Pair(Last)[1]) # Signed(Pair(Last)[2])]_vars
 \* the log reports and keeps only messages it has been given: a slot changes only to the
